@@ -767,6 +767,74 @@ def _exit_context(cfg, n):
     return "exit"
 
 
+# --------------------------------------------------------------------------------------------- C07-10
+def rule_internal_param_updates(eng, rep, rule="C07-10.internal-parameter-updates-cannot-collide-with-user-updates"):
+    """ParameterList.__call__ raises ValueError on a second update of a key.  Every update made by the package itself after the
+    user's parameters were applied must therefore be guarded by one of the idioms that exclude a previous update of that key."""
+    n = 0
+    defaults, typed = param_registry(eng)
+    for ci in eng.calls_to(PARAMS_CALL):
+        if not is_param_set(ci.node):
+            continue
+        key = param_key(eng, ci.node)
+        fi = ci.caller
+        if key is None:
+            continue          # the user's own keys (solve applies user_params)
+        if fi.cls == "ParameterList":
+            continue
+        n += 1
+        cfg = eng.cfg(fi)
+        cn = cfg.cfg_node(ci.node)
+        gs = guards_of(cfg, cn)
+        how = None
+        for (_b, a) in gs:
+            # (a) not params.params_changed[key]
+            if a.op == "false" and isinstance(a.lhs, ast.Subscript) and ekey(a.lhs.value).endswith("params_changed") and isinstance(a.lhs.slice, ast.Constant) and a.lhs.slice.value == key:
+                how = "guarded by `not params.params_changed['%s']`" % key
+            # (c) params(key) is None, with a None default: setting a key to None is a read, so a None value was never updated
+            if a.op == "is" and is_none(a.rhs) and isinstance(a.lhs, ast.Call) and param_key(eng, a.lhs) == key and is_none(defaults.get(key)):
+                how = "guarded by `params('%s') is None` (default None: an updated key cannot be None)" % key
+            # (b) a flag defined from `key in user_params`
+            if a.op in ("false", "truth") and isinstance(a.lhs, ast.Name):
+                flag = a.lhs.id
+                if _flag_means_key_not_set(eng, fi, flag, key, a.op):
+                    how = "guarded by `%s%s`, which is defined from `'%s' in user_params`" % ("not " if a.op == "false" else "", flag, key)
+        site = eng.where(fi, ci.node)
+        if how:
+            rep.ok(rule, site, "update of '%s' %s" % (key, how))
+        else:
+            rep.bad(rule, site, "%s|unguarded-internal-update|%s" % (fi.fid, key),
+                    "the package updates '%s' without excluding that the user already set it: ParameterList raises ValueError('... for a second time') in the middle of a valid solve" % key)
+    rep.require_count(rule, "internal parameter updates", n, 3)
+
+
+def _flag_means_key_not_set(eng, fi, flag, key, op):
+    """flag (a parameter of fi) is bound at the call sites from an expression that contains  `'<key>' in user_params`,
+    and the update runs on the outcome where that membership is false."""
+    if op != "false" or flag not in fi.all_params:
+        return False
+    sites = eng.res.callers.get(fi.fid, [])
+    found = False
+    for ci in sites:
+        for t, bound in eng.res.call_targets(ci.caller, ci.node):
+            if t.fid != fi.fid:
+                continue
+            b = bind_call(ci.node, t, bound and t.is_method)
+            e = b.params.get(flag)
+            if e is None or isinstance(e, tuple):
+                continue
+            ccfg = eng.cfg(ci.caller)
+            exprs = [e]
+            if isinstance(e, ast.Name):
+                exprs = [ccfg.ast_of(d).value for d in ccfg.defs_reaching(e, e.id) if isinstance(ccfg.ast_of(d), ast.Assign)]
+            for ex in exprs:
+                for sub in ast.walk(ex):
+                    if isinstance(sub, ast.Compare) and len(sub.ops) == 1 and isinstance(sub.ops[0], ast.In) and isinstance(sub.left, ast.Constant) and sub.left.value == key \
+                            and "user_params" in ekey(sub.comparators[0]):
+                        found = True
+    return found
+
+
 def run(eng, rep):
     rep.explain("C07: call conformance of every resolved internal call (T10); shape of the graceful input-error path in solve (T2); "
                 "guard present for each documented invalid-argument class (frozen table, matched on normalised conditions); "
@@ -783,5 +851,6 @@ def run(eng, rep):
     rule_unknown_key(eng, rep)
     rule_raises(eng, rep)
     rule_exit_info_nonnull(eng, rep)
+    rule_internal_param_updates(eng, rep)
     from . import c20
     c20.rule_str_never_formats_none(eng, rep, rule="C07-8.printing")
